@@ -301,6 +301,13 @@ func observe(c codec, data []byte, sk srcKind, sched []int, rng *rand.Rand) (o o
 			o.Bad = fmt.Sprintf("OutputOffset %d after %d delivered bytes", out, len(o.Out))
 		}
 		o.In, o.OutN = in, out
+		// sources that expose exactly what has been consumed (ReadByte, Peek/Discard):
+		// after every Read, InputOffset never exceeds the bytes taken from the source
+		if left != nil && sk.Exact && o.Bad == "" && (err == nil || err == io.EOF) {
+			if consumed := int64(len(data) - left()); in > consumed {
+				o.Bad = fmt.Sprintf("InputOffset %d exceeds the %d bytes taken from the source", in, consumed)
+			}
+		}
 		if err != nil {
 			o.Err = err
 			o.Cls = vhlib.ErrClass(err)
